@@ -249,7 +249,7 @@ fn injected_call(log: &strace::Log, fault: &Fault) -> Result<Option<u32>, String
 // ------------------------------------------------------------------------------------------------
 
 fn spec_text(s: &Spec) -> String {
-    format!("{} {} {}", TY_NAMES[s.ty.min(8) as usize], if s.panic { "panic" } else { "return" }, DISP_NAMES[s.disp.min(4) as usize])
+    format!("{} {} {}", TY_NAMES[(s.ty.min(NTY - 1)) as usize], if s.panic { "panic" } else { "return" }, DISP_NAMES[s.disp.min(4) as usize])
 }
 
 /// Outcome-independent part: crash / deadlock / infrastructure. Returns false when the reports must not be judged.
@@ -335,21 +335,25 @@ fn judge_c05(env: &Env, case: &Case, out: &Outcome, injected: Option<u32>, fails
             if s.joined() {
                 let (wh, wl) = expected_value(s.ty, s.tag);
                 match (sr.join_class, s.panic) {
-                    (1, true) => rep.class("panic-joined-none"),
+                    (1, true) => {
+                        rep.class("panic-joined-none");
+                        rep.class_if(s.ty >= 9, "panic-joined-none:niche-carrying-result");
+                    }
                     (2, false) => {
                         if sr.vhash != wh || sr.vlen != wl {
-                            fails.push(f(format!("join|Some(wrong value)|{}", TY_NAMES[s.ty.min(8) as usize]), format!("{ctxt}: join returned Some(v) with {} bytes hashing to {:#x}, the closure returned {} bytes hashing to {:#x}", sr.vlen, sr.vhash, wl, wh)));
+                            fails.push(f(format!("join|Some(wrong value)|{}", TY_NAMES[(s.ty.min(NTY - 1)) as usize]), format!("{ctxt}: join returned Some(v) with {} bytes hashing to {:#x}, the closure returned {} bytes hashing to {:#x}", sr.vlen, sr.vhash, wl, wh)));
                         }
                         rep.class_if(s.ty == 6 || s.ty == 7, "over-aligned-result");
                         rep.class_if(s.ty == 0, "zero-sized-result");
                         rep.class_if(s.ty == 5, "4KiB-result");
                         rep.class_if(s.ty == TY_VEC, "heap-owning-result");
+                        rep.class_if(s.ty >= 9, "niche-carrying-result");
                         if s.ty != 0 {
                             nonunit_joined = true;
                         }
                     }
-                    (1, false) => fails.push(f(format!("join|None although the closure returned|{}", TY_NAMES[s.ty.min(8) as usize]), format!("{ctxt}: join returned None, the closure does not panic"))),
-                    (2, true) => fails.push(f("join|Some although the closure panicked|", format!("{ctxt}: join returned Some, the closure panics"))),
+                    (1, false) => fails.push(f(format!("join|None although the closure returned|{}", TY_NAMES[(s.ty.min(NTY - 1)) as usize]), format!("{ctxt}: join returned None, the closure does not panic"))),
+                    (2, true) => fails.push(f("join|Some although the closure panicked|", format!("{ctxt}: join returned Some({} bytes hashing to {:#x}) of type {}, the closure panics", sr.vlen, sr.vhash, TY_NAMES[(s.ty.min(NTY - 1)) as usize]))),
                     (c, _) => fails.push(f("join|no result reported|", format!("{ctxt}: join class {c}"))),
                 }
                 if sr.buf_join != want_buf {
@@ -730,7 +734,7 @@ fn disp_strategy(c06: bool) -> impl Strategy<Value = u8> {
 
 fn spec_strategy(c06: bool) -> impl Strategy<Value = Spec> {
     (
-        0u8..9,
+        0u8..NTY,
         prop::bool::weighted(0.25),
         disp_strategy(c06),
         prop::bool::weighted(0.3),
@@ -832,11 +836,11 @@ fn fixed_batches() -> Vec<Batch> {
     ]
 }
 
-/// Every (result type x return|panic x disposition) combination once: 90 specs in two batches.
+/// Every (result type x return|panic x disposition) combination once: 130 specs in three batches.
 fn matrix_batches() -> Vec<Batch> {
     let mut specs = Vec::new();
     let mut k = 0u64;
-    for ty in 0..9u8 {
+    for ty in 0..NTY {
         for panic in [false, true] {
             for disp in 0..5u8 {
                 k += 1;
@@ -851,8 +855,7 @@ fn matrix_batches() -> Vec<Batch> {
             }
         }
     }
-    let second = specs.split_off(45);
-    vec![Batch { specs }, Batch { specs: second }]
+    specs.chunks(45).map(|c| Batch { specs: c.to_vec() }).collect()
 }
 
 fn builds_for(ctx: &Ctx) -> Vec<&'static str> {
